@@ -6,6 +6,7 @@ import (
 	"strings"
 
 	clip "github.com/bolom009/go-clipper2"
+	"vsimrt"
 )
 
 // ---------------------------------------------------------------------------
@@ -398,6 +399,7 @@ func (c *Ctx) judgeC12(ob *Obj, op *Op, obs *Outcome) {
 	}
 
 	isEngine := ob.kind == "c64" || ob.kind == "cd"
+	vsimrt.Tick()
 	ref := c.reference(ob, op, refSame)
 	if ref.Diverged {
 		c.st.RefDiverge++
@@ -479,12 +481,20 @@ func (c *Ctx) runScript(ops []Op) []Outcome {
 					ob.hadTree = true
 				}
 			}
+			c.keep(op, d, ob, &out)
 			out.freeze()
 			c.afterExec(ob, op)
 		} else {
+			c.keep(op, d, ob, &out)
 			out.freeze()
 		}
+		out.k64, out.kD = nil, nil
 		outs[i] = out
 	}
+	class := "result-stability"
+	if c.judge {
+		class = "history"
+	}
+	c.verifyKept(class)
 	return outs
 }
